@@ -752,6 +752,13 @@ func (r *PipelineRunner) SaveToStore() {
 			if shouldRemoveJob {
 				delete(r.jobsByID, job.ID)
 				r.jobsByPipeline[job.Pipeline] = removeJobFromList(r.jobsByPipeline[job.Pipeline], job)
+				// A job of a removed pipeline could still be waiting: it must not stay on the wait list, where it
+				// would block all later jobs if the pipeline is defined again
+				if job.startTimer != nil {
+					job.startTimer.Stop()
+					job.startTimer = nil
+				}
+				r.removeFromWaitList(job)
 
 				err := r.outputStore.Remove(job.ID.String())
 				if err != nil {
